@@ -499,6 +499,7 @@ func (x *fnCtx) callSiteClauses(st *State, fr *Frame, in ssa.Instruction, c *ssa
 		if c.IsInvoke() {
 			names["$recv"] = nameBind{v: fnv}
 		}
+		names["$fn"] = nameBind{v: fnv}
 		// own parameters by position ($p0 is the first non-receiver parameter)
 		skip := 0
 		if x.fn.Signature.Recv() != nil {
